@@ -155,6 +155,23 @@ def gen_cases(rng, n):
             if k0 is not None:
                 rels = []
         o1["factory"] = o2["factory"] = fac
+        if kind == "off" and not bconsts and not cdecl and rng.random() < 0.15:
+            # the modular text (and its sub-specifications) is given to an object that was parsed - and perhaps evaluated - with
+            # another text before, and the object is parsed again (the machine's action Reparse): it then monitors the new formula like
+            # the inlined object does (seed r10 C09-2: a re-parsed assertion replaced its earlier entry, new sub-specifications landed
+            # behind it and evaluate() returned the last of them)
+            g0 = Gen(rng, vars_=vs, S=S, ops=["not", "and", "or", "implies", "once", "hist", "prev", "onceT", "evT", "alw"], ivs=[(0, 1), (1, 2)], bool_atoms=False)
+            phi0 = g0.formula(rng.choice([0, 1, 2]))
+            if not (set(vars_of(phi0)) <= set(vs)) or not vars_of(phi0):
+                phi0 = pred("ge", var(vs[0]), const(0))
+            o1r = dt_obj(phi0, S, vs, factory=fac)
+            if declare_names:
+                o1r["declare"] = o1["declare"]
+            re_ev = {"o": 1, "a": "reparse", "phi": phi_m, "text": o1["text"], "subs": o1.get("subs", [])}
+            evs = [ev_parse(1), ev_parse(2)] + ([ev_evaluate(range(N), gen_trace(rng, vs, N, S), 1)] if rng.random() < 0.5 else []) + \
+                  [re_ev, ev_evaluate(range(N), w, 1), ev_evaluate(range(N), w, 2)]
+            cases.append(case([o1r, o2], evs, rels, skip=["evaluate.viol", "parse.ast"], kind=kind, style=style))
+            continue
         cases.append(case([o1, o2], evs, rels, skip=["evaluate.viol"], kind=kind, style=style))
     return cases
 
@@ -172,6 +189,29 @@ def main():
     rep.add_mc("shared (multiply referenced) stateful sub-formulas: one memory per name, stepped once per update", r)
     if r["violated"]:
         rep.mc_violation("C09_shared", r)
+    # the offline half of the machine with Reparse (another text on a parsed object, parsed again): after every evaluation the result is
+    # the semantics of the formula installed last, whatever was parsed and evaluated before (InvC01cfg, InvC13)
+    ax_, ay_ = pred("ge", var("x"), const(1)), pred("le", var("y"), const(1))
+    FRe = [ax_, bi("and", ax_, ay_), un("once", ax_), un("evT", ay_, 0, 1), bi("since", ax_, ay_), un("prev", bi("or", ax_, ay_))]
+    r = mc.rtamt_mc("C09_reparse", FRe, [mc.std_cfg(["x", "y"])], vals=(-2, 3), maxlen=2 if quick else 3, mode="offline_re",
+                    invariants=["InvC01", "InvC01cfg", "InvC13"], properties=["ActC16"])
+    rep.add_mc("offline machine with Reparse between %d formulas: every evaluation is the semantics of the formula installed last" % len(FRe), r)
+    if r["violated"]:
+        rep.mc_violation("C09_reparse", r)
+    # (B): TLC-simulated behaviours of that machine (Parse, Extend, Reparse) replayed on the real library
+    import behaviours
+    bres, behs = behaviours.simulate("C09_sim", FRe + dup[:6], ["x", "y"], num=(40 if quick else 400), depth=(6 if quick else 8), seed=core.seed(), mode="offline_re")
+    rep.add_mc("TLC simulation of Rtamt.tla, offline half with Reparse: behaviours generated for replay", bres, exhaustive=False)
+    if bres["violated"]:
+        rep.mc_violation("C09_sim", bres)
+    bcases = behaviours.to_cases(behs, ["x", "y"])
+    for c_ in bcases:
+        c_["skip"] = ["evaluate.viol"]
+    btr = runner.run_cases(bcases)
+    bvs, bgen, bdist = core.validate("C09_sim_replay", btr)
+    rep.add_traces(btr, bvs, bgen, bdist, nontrivial_key=lambda c: c["objs"][0]["text"] + str([(e["a"], e.get("text"), e.get("w")) for e in c["events"]]))
+    rep.extra["tlc_behaviours_replayed"] = len(bcases)
+    rep.extra["tlc_behaviours_with_reparse"] = sum(1 for c in bcases if any(e["a"] == "reparse" for e in c["events"]))
     rng = random.Random(core.seed() * 7919 + 9)
     cases = gen_cases(rng, 900 if quick else 15000)
     traces = runner.run_cases(cases)
